@@ -12,6 +12,7 @@ import (
 	"sync"
 	"time"
 
+	"github.com/jcmturner/gokrb5/v8/zzverif/vclock"
 	"github.com/jcmturner/gokrb5/v8/zzverif/vsched"
 )
 
@@ -149,18 +150,39 @@ type base struct {
 	out            []byte // bytes still to deliver
 	produced       bool
 	eofAfter       bool
+	rdl, wdl       time.Time // deadlines, judged against the virtual clock
+}
+
+// NoDeadlineWaits counts reads on a silent endpoint made without a read deadline (a real connection would hang).
+var NoDeadlineWaits int
+
+func expired(d time.Time) bool { return !d.IsZero() && !vclock.Now().Before(d) }
+
+// waitOut models blocking on a peer that never answers: virtual time passes until the read deadline.
+func (c *base) waitOut() {
+	if c.rdl.IsZero() {
+		NoDeadlineWaits++
+		return
+	}
+	if vclock.IsVirtual() && vclock.Now().Before(c.rdl) {
+		vclock.Set(c.rdl)
+	}
 }
 
 func (c *base) Close() error                       { c.closed = true; return nil }
 func (c *base) LocalAddr() net.Addr                { return addr{c.network, "127.0.0.1:0"} }
 func (c *base) RemoteAddr() net.Addr               { return addr{c.network, c.raddr} }
-func (c *base) SetDeadline(t time.Time) error      { return nil }
-func (c *base) SetReadDeadline(t time.Time) error  { return nil }
-func (c *base) SetWriteDeadline(t time.Time) error { return nil }
+func (c *base) SetDeadline(t time.Time) error      { c.rdl, c.wdl = t, t; return nil }
+func (c *base) SetReadDeadline(t time.Time) error  { c.rdl = t; return nil }
+func (c *base) SetWriteDeadline(t time.Time) error { c.wdl = t; return nil }
 
 func (c *base) Write(b []byte) (int, error) {
 	if c.closed {
 		return 0, errors.New("use of closed network connection")
+	}
+	if expired(c.wdl) {
+		logAttempt(c.network, c.raddr, "write-deadline-already-passed")
+		return 0, &net.OpError{Op: "write", Net: c.network, Err: timeoutErr{}}
 	}
 	c.in = append(c.in, b...)
 	return len(b), nil
@@ -182,11 +204,16 @@ func (c *UDPConn) ReadFrom(b []byte) (int, net.Addr, error) {
 	if c.closed {
 		return 0, nil, errors.New("use of closed network connection")
 	}
+	if expired(c.rdl) {
+		logAttempt(c.network, c.raddr, "read-deadline-already-passed")
+		return 0, nil, &net.OpError{Op: "read", Net: "udp", Err: timeoutErr{}}
+	}
 	switch c.ep.Behaviour {
 	case Refuse, CloseEarly:
 		logAttempt(c.network, c.raddr, "refused")
 		return 0, nil, &net.OpError{Op: "read", Net: "udp", Err: errRefused}
 	case Silent, Partial:
+		c.waitOut()
 		logAttempt(c.network, c.raddr, "timeout")
 		return 0, nil, &net.OpError{Op: "read", Net: "udp", Err: timeoutErr{}}
 	}
@@ -210,6 +237,10 @@ func (c *TCPConn) Read(b []byte) (int, error) {
 	if c.closed {
 		return 0, errors.New("use of closed network connection")
 	}
+	if expired(c.rdl) {
+		logAttempt(c.network, c.raddr, "read-deadline-already-passed")
+		return 0, &net.OpError{Op: "read", Net: "tcp", Err: timeoutErr{}}
+	}
 	if !c.produced {
 		c.produced = true
 		switch c.ep.Behaviour {
@@ -217,6 +248,7 @@ func (c *TCPConn) Read(b []byte) (int, error) {
 			logAttempt(c.network, c.raddr, "closed-early")
 			c.eofAfter = true
 		case Silent:
+			c.waitOut()
 			logAttempt(c.network, c.raddr, "timeout")
 			return 0, &net.OpError{Op: "read", Net: "tcp", Err: timeoutErr{}}
 		default:
